@@ -675,7 +675,7 @@ class AgainTask (Task):
     except StopIteration:
       # Function ended without yielding anything: it returns None
       pass
-    except Exception:
+    except BaseException:
       parent.task.re = sys.exc_info()
     else:
       while True:
@@ -683,7 +683,9 @@ class AgainTask (Task):
           try:
             v = yield nxt
             do_next = lambda: g.send(v)
-          except Exception as e:
+          except GeneratorExit:
+            raise # This subtask is being discarded
+          except BaseException as e:
             exc_info = sys.exc_info()
             do_next = lambda: g.throw(*exc_info)
           try:
@@ -691,7 +693,7 @@ class AgainTask (Task):
           except StopIteration:
             # Iterator just ran out, so...
             break
-          except Exception:
+          except BaseException:
             parent.task.re = sys.exc_info()
             break
         else:
